@@ -204,6 +204,8 @@ class Contract:
         ghosts=None,
         ghost_names=(),
         native_patch=None,
+        call=None,
+        fix_native=None,
     ):
         self.target = target
         self.fn = fn if fn is not None else resolve_target(target)
@@ -223,6 +225,8 @@ class Contract:
         self.max_paths = max_paths
         self.ghosts = dict(ghosts or {})  # ghost inputs made before the parameters (not passed to the function)
         self.ghost_names = list(ghost_names)  # names in ctx.ghost (set by effects) that clauses/replay may read
+        self.fix_native = fix_native  # f(native inputs dict) -> native inputs dict: turn stand-ins into real objects for replay
+        self.call = list(call) if call else None  # argument expressions over the params (default: the params in order)
         self.native_patch = native_patch  # f(native ghosts) -> context manager installing the externals for replay
 
 
@@ -410,6 +414,18 @@ class Concretizer:
             return {self.conc(k): self.conc(x) for k, x in v.items()}
         if isinstance(v, Opaque):
             raise EngineError("opaque value cannot be concretised")
+        if isinstance(v, types.SimpleNamespace) or (
+            hasattr(v, "__dict__") and type(v).__module__.startswith("contracts") and not isinstance(v, type)
+        ):
+            if id(v) in self.memo:
+                return self.memo[id(v)]
+            if is_symbolic(list(vars(v).values())):
+                new = type(v).__new__(type(v))
+                self.memo[id(v)] = new
+                for k, x in vars(v).items():
+                    setattr(new, k, self.conc(x))
+                return new
+            return v
         if isinstance(v, models.SList):
             return v.concretize(self)
         return v
@@ -506,7 +522,11 @@ def verify(c: Contract, reg: Registry, want_smt_sample=False):
             raise PathAbort()
         outcome = None
         try:
-            if isinstance(fn, Closure):
+            if getattr(fn, "is_fragment", False):
+                res = interp.call(fn.closure(), list(args.values()), {})
+            elif c.call is not None:
+                res = interp.run_function(fn, [interp.eval(_parse(a), env) for a in c.call], {})
+            elif isinstance(fn, Closure):
                 res = interp.call(fn, list(args.values()), {})
             else:
                 res = interp.run_function(fn, list(args.values()), {}) if not c.params_kw else interp.run_function(
@@ -620,6 +640,8 @@ def replay(c: Contract, reg: Registry, vc: VC):
         cz = Concretizer(interp, model)
         native = {k: cz.conc(v) for k, v in ctx.inputs.items()}
         cz.ghosts = {k: cz.conc(ctx.ghost[k]) for k in list(c.ghosts) + list(c.ghost_names) if k in ctx.ghost}
+        if c.fix_native is not None:
+            native = c.fix_native(native)
     except (EngineError, PathAbort, Exception) as e:  # noqa: BLE001
         return "no-input", dict(reason=f"inputs not constructible: {type(e).__name__}: {e}", model=str(model)[:2000])
     return run_native(c, reg, native, vc.clause, cz)
@@ -640,7 +662,20 @@ def run_native(c, reg, native, clause_text, cz=None):
     try:
         fn = c.fn
         with cm:
-            res = fn(*call_args.values())
+            if getattr(fn, "is_fragment", False):
+                _it = Interp(Ctx(), reg)
+                try:
+                    res = _it.call(fn.closure(), list(call_args.values()), {})
+                except PyRaise as pr:
+                    raise (pr.exc if isinstance(pr.exc, BaseException) else RuntimeError(str(pr.exc)))
+            elif c.call is not None:
+                _it = Interp(Ctx(), reg)
+                _env = Env(globs=reg.spec_globals)
+                for k, v in call_args.items():
+                    _env.set(k, v)
+                res = fn(*[_it.eval(_parse(a), _env) for a in c.call])
+            else:
+                res = fn(*call_args.values())
         info["result"] = _show(res)
         raised = None
     except Exception as e:  # noqa: BLE001
@@ -707,3 +742,67 @@ def _show_lnode(v):
         else:
             fields[k] = repr(x)
     return {type(v).__name__: fields}
+
+
+# =============================================================================== fragments
+def fragment(target, first, last=None, params=(), returns="None", name=None):
+    """A contiguous statement range inside a real function, as a callable for E1.
+
+    target: 'path/to/file.py::qualname'; the block is the statement list (at any nesting depth) that contains a
+    statement whose source starts with `first`; it extends to the statement starting with `last` (inclusive) or is
+    that single statement. Free variables become parameters. Re-read from disk (or the in-memory override) on every
+    call, so the verified text is the current text of the repository."""
+    import os
+
+    path, qual = target.split("::")
+    full = path if os.path.isabs(path) else os.path.join(os.environ.get("FFCX_REPO", "/repo"), path)
+    modname = path[:-3].replace("/", ".")
+    mod = importlib.import_module(modname)
+
+    class Frag:
+        __name__ = name or f"{qual}#fragment"
+        __qualname__ = __name__
+        is_fragment = True
+        file = full
+
+        def node(self):
+            from .interp import file_ast, find_def
+
+            fn = find_def(full, qual)
+            if fn is None:
+                raise EngineError(f"anchor missing: {qual} in {path}")
+            block = None
+            for n in ast.walk(fn):
+                for field in ("body", "orelse", "finalbody"):
+                    stmts = getattr(n, field, None)
+                    if isinstance(stmts, list):
+                        for i, st in enumerate(stmts):
+                            if isinstance(st, ast.stmt) and ast.unparse(st).startswith(first):
+                                if block is not None:
+                                    raise EngineError(f"anchor ambiguous: {first!r} in {qual}")
+                                block = (stmts, i)
+            if block is None:
+                raise EngineError(f"anchor missing: statement starting with {first!r} in {qual}")
+            stmts, i = block
+            j = i
+            if last is not None:
+                j = None
+                for k in range(i, len(stmts)):
+                    if ast.unparse(stmts[k]).startswith(last):
+                        j = k
+                        break
+                if j is None:
+                    raise EngineError(f"anchor missing: statement starting with {last!r} after {first!r} in {qual}")
+            body = list(stmts[i : j + 1]) + [ast.Return(value=ast.parse(returns, mode="eval").body)]
+            fd = ast.FunctionDef(
+                name="fragment", args=ast.arguments(posonlyargs=[], args=[ast.arg(arg=p) for p in params], kwonlyargs=[],
+                                                    kw_defaults=[], defaults=[]), body=body, decorator_list=[], type_params=[])
+            ast.fix_missing_locations(fd)
+            return fd
+
+        def closure(self):
+            clo = Closure(self.node(), Env(globs=vars(mod)), self.__name__, self.__name__)
+            clo.defaults = ([], {})
+            return clo
+
+    return Frag()
